@@ -23,9 +23,10 @@ global steps (`Model/Global.lean`: every element is a handler of one correct val
 
 **Environment.** Every step of validator `i` runs with the environment `E i` — what its block store answers during
 the round (`Env`: `queuedFirst`, `persistedNext`, `payloadOk`, `storeNext`). The theorems state what they need of `E`
-(`Props/C06s.lean`, `EnvOk`): `persistedNext ≤ storeNext` (the queue is never behind the disk), the store has reached
-every cached proposal (nothing waits in `queue_block`: "missing blocks can be fetched"), and for phase (5): payloads
-verify, nothing is pruned (`queuedFirst = 0`), the predecessor of the proposed block is persisted.
+(`Props/C06s.lean`): `persistedNext ≤ storeNext` (`Setup.sane`: the queue is never behind the disk), the store has
+reached every cached proposal (`StoreOk`: nothing waits in `queue_block`, "missing blocks can be fetched"), and for
+phase (5) (`EnvFits`): payloads verify, the proposed block is not pruned (`queuedFirst ≤` its number), and for a fresh
+proposal its predecessor is persisted.
 
 Besides the global state the run carries a **log** of all effects emitted, tagged with the validator that emitted
 them (a ghost: no step reads it), so that "has notified its proposer" / "has handed block k to the store" can be
